@@ -71,13 +71,8 @@ def validate_suite(rep, pid, api):
     n_acc = 0
     for a, b, cfg in spans:
         rep.nontriv(("suite_trace", api, repr(cfg)))
-        r = [k for k in range(a, b) if k in rej]
-        if r:
-            e = events[r[0]]
-            rep.violation("a call the repository's own tests make - %s at %s - is not a behaviour of the call machine (spec/%s): event %r is "
-                          "not explained by any action" % (api, cfg, spec.replace("Trace_", "") , e),
-                          {"api": api, "check": "suite_trace", "cfg": cfg, "event": e, "trace": events[a:b]})
-        else:
+        from .stagetrace import judge
+        if judge(rep, events, a, b, rej, cfg, api + " (a call of the repository's own tests)", "call machine (spec/%s)" % spec.replace("Trace_", "")):
             n_acc += 1
     rep.count("suite_traces_accepted", n_acc)
     rep.sample({"suite_trace": mine[0]["cfg"], "events": mine[0]["events"][:6]})
